@@ -362,7 +362,7 @@ class Waiting(State):
                 self._wake_up(*wake_up)
             raise
 
-        if result == NULL:
+        if result is NULL:  # (identity: the value may be an array that compares element-wise)
             next_state = self.create_state(ProcessState.RUNNING, self.done_callback)
         else:
             next_state = self.create_state(ProcessState.RUNNING, self.done_callback, result)
